@@ -193,6 +193,11 @@ Theorem range_chain_created : forall existing g,
 Proof. exact range_chain_created_proof. Qed.
 Print Assumptions range_chain_created.
 
+(* ... and such groups satisfy the route-existence premise of route_total: every accepted row of a range-sharded
+   measurement has a shard in them *)
+Theorem range_chain_is_wf_route : forall c g, c_typ c = Range -> range_chain [] (g_shards g) -> wf_route c g.
+Proof. intros c g Ht H. unfold wf_route. rewrite Ht. apply range_chain_covers. exact H. Qed.
+
 (* Read side, range sharding: for every alternative (tag set) the condition yields, EVERY shard of the group whose range
    holds some key extending the prefix built from that alternative (measurement name + the leading shard-key pairs the
    alternative binds) is consulted. With C11_prune_sound: the shard of every matching row is among them. *)
